@@ -936,6 +936,15 @@ class ExprMixin:
                 return FuncV(fi, self_obj=obj)
             if r is not None and r[0] == 'attr' and name not in obj.cls.ann_fields:
                 return self.class_attr(r[2], name, r[1])
+        if isinstance(obj, _ext.ParserV):
+            return BoundExt(obj, name)
+        if isinstance(obj, _ext.NamespaceV):
+            if obj.dict is None:
+                obj.dict = _ext.parser_namespace(self, obj.parser)
+            if name in obj.dict.items:
+                return obj.dict.items[name]
+            self.note_unknown(node, f'attribute {name} of the argparse namespace')
+            return UnkV(name)
         if isinstance(obj, _ext.StructV):
             if name == 'size':
                 import struct as _st
